@@ -199,6 +199,8 @@ def run(pid, tier):
                 v.inconc("native replay build (%s) failed" % prof)
         rdir = replay_dir(pid)
         for n, reason in candidates:
+            if v.violations and len(v.violations) >= 2:
+                break
             tests, pout = kani.playback(CRATE, TARGET_KANI, n, flags=FLAGS)
             if not tests:
                 v.inconc("harness %s fails (%s) but no counterexample values could be extracted" % (n, reason))
